@@ -1,6 +1,7 @@
 package refcff
 
 import (
+	"fmt"
 	"math"
 	"strconv"
 )
@@ -13,6 +14,9 @@ type FDSpec struct {
 	// OmitSubrs leaves out the Subrs operator (only sensible when Subrs is
 	// empty); otherwise an INDEX is always written and referenced.
 	OmitSubrs bool
+	// SubrsOffsetReal selects the spelling of the Subrs offset operand, which
+	// is a "number": 0 = integer, 1 = real "00001234", 2 = real "001234.0".
+	SubrsOffsetReal int
 }
 
 // Spec describes a CFF font program to write.
@@ -145,7 +149,11 @@ func Build(s Spec) []byte {
 		subrPatch[i] = -1
 		if !(fd.OmitSubrs && len(fd.Subrs) == 0) {
 			subrPatch[i] = len(p)
-			p = dictOp(dictInt5(p, 0), OpSubrs)
+			if fd.SubrsOffsetReal != 0 {
+				p = dictOp(append(p, 30, 0, 0, 0, 0, 0xff), OpSubrs) // fixed-size real, patched below
+			} else {
+				p = dictOp(dictInt5(p, 0), OpSubrs)
+			}
 		}
 		privs[i] = p
 	}
@@ -272,7 +280,27 @@ func Build(s Spec) []byte {
 		if subrPatch[i] < 0 {
 			continue
 		}
-		set5(privPos[i]+subrPatch[i], len(out)-privPos[i])
+		if off := len(out) - privPos[i]; fd.SubrsOffsetReal != 0 && off < 1000000 {
+			// eight nibbles: "00001234" or "001234.0"
+			digits := fmt.Sprintf("%08d", off)
+			if fd.SubrsOffsetReal == 2 {
+				digits = fmt.Sprintf("%06d", off) + ".0"
+			}
+			pos := privPos[i] + subrPatch[i] + 1
+			for k := 0; k < 4; k++ {
+				nib := func(c byte) byte {
+					if c == '.' {
+						return 10
+					}
+					return c - '0'
+				}
+				out[pos+k] = nib(digits[2*k])<<4 | nib(digits[2*k+1])
+			}
+		} else if fd.SubrsOffsetReal != 0 {
+			panic("refcff: Subrs offset too large for the fixed-size real spelling")
+		} else {
+			set5(privPos[i]+subrPatch[i], off)
+		}
 		out = AppendIndex(out, fd.Subrs)
 	}
 	return out
